@@ -3,11 +3,11 @@ From Coq Require Import List NArith Arith Bool Lia.
 From SKV Require Import Conc.PipeFail Conc.PipeFailSpec.
 Import ListNotations.
 
-(* ------------------------------------------------------------------ refutations (8 slots, 7 permits) *)
+(* ------------------------------------------------------------------ witnesses (8 slots, 7 permits) *)
 Definition getst (o : option pst) : pst := match o with Some s => s | None => p0 0 end.
 
 (* apply fails after the first of two entries: publish() moves the horizon over the batch *)
-Definition wl_trace : list label := [LAcquire 0; LEnqueue 0 2; LApplyFail 0 1].
+Definition wl_trace : list label := [LAcquire 0; LEnqueue 0 2; LApplyFail 0 1; LFinish 0].
 Definition wl_state : pst := Eval vm_compute in getst (prun 8 (p0 7) wl_trace).
 Lemma wl_reach : reach 8 7 wl_trace wl_state.
 Proof. vm_compute. reflexivity. Qed.
@@ -22,25 +22,31 @@ Qed.
 Lemma wl_class : known_partial_apply wl_trace = true.
 Proof. reflexivity. Qed.
 
-(* committer 0 is slow in apply; seven commits fail meanwhile (WAL error or BatchTooLarge): each returns
-   at once and frees its permit, its entry stays queued behind committer 0; the ninth commit finds
-   the eight slots taken *)
+(* regression of the former finding C15-N9 (commit queue overflow): committer 0 is slow in apply, seven
+   commits fail meanwhile.  Before the repair each failing commit returned at once and freed its permit
+   with its entry still queued, and the ninth commit found the eight slots taken.  Now a failing commit
+   waits (LFinish is not enabled while its entry is queued) and keeps its permit: the seventh failing
+   committer does not even get a permit — the old trace is no behaviour of the model any more — and
+   the longest prefix of it that is one ends with six entries behind committer 0, no panic. *)
 Definition fail_commit (i : nat) : list label := [LAcquire i; LEnqueue i 1; LWalFail i].
 Definition wq_trace : list label :=
   Eval vm_compute in [LAcquire 0; LEnqueue 0 1] ++ concat (map fail_commit [1; 2; 3; 4; 5; 6; 7]) ++ [LAcquire 8; LEnqueue 8 1].
-Definition wq_state : pst := Eval vm_compute in getst (prun 8 (p0 7) wq_trace).
-Lemma wq_reach : reach 8 7 wq_trace wq_state.
+Lemma wq_not_a_behaviour : prun 8 (p0 7) wq_trace = None.
 Proof. vm_compute. reflexivity. Qed.
-Lemma wq_panics : p_panic wq_state = true /\ length (p_q wq_state) = 8 /\ p_free wq_state = 5.
+Definition wq_prefix : list label :=
+  Eval vm_compute in [LAcquire 0; LEnqueue 0 1] ++ concat (map fail_commit [1; 2; 3; 4; 5; 6]).
+Definition wq_state : pst := Eval vm_compute in getst (prun 8 (p0 7) wq_prefix).
+Lemma wq_reach : reach 8 7 wq_prefix wq_state.
+Proof. vm_compute. reflexivity. Qed.
+Lemma wq_blocked : p_panic wq_state = false /\ length (p_q wq_state) = 7 /\ p_free wq_state = 0 /\
+                   pstep 8 wq_state (LAcquire 7) = None /\ pstep 8 wq_state (LFinish 1) = None.
 Proof. vm_compute. auto. Qed.
-
-Theorem pipeline_not_poisoned_refuted : ~ pipeline_not_poisoned_stmt 8 7.
-Proof.
-  intro H. destruct (H wq_trace wq_state wq_reach) as [H1 _]. destruct wq_panics as [W _]. congruence.
-Qed.
-(* the witness is inside the known class: the first failing commit is an early release *)
-Lemma wq_class : prun_ne 8 (p0 7) wq_trace = None.
-Proof. vm_compute. reflexivity. Qed.
+(* once committer 0 has applied, everything drains: all seven commits return, queue empty, permits free *)
+Definition wq_drain : list label := Eval vm_compute in LApplyOk 0 :: map LFinish [0; 1; 2; 3; 4; 5; 6].
+Lemma wq_drains : match prun 8 wq_state wq_drain with
+                  | Some s => idle 7 s = true /\ failed s 1 = true /\ failed s 6 = true /\ failed s 0 = false
+                  | None => False end.
+Proof. vm_compute. auto. Qed.
 
 (* ------------------------------------------------------------------ basic facts *)
 Lemma ph_get_set_same : forall i p l, ph_get i (ph_set i p l) = p.
@@ -75,7 +81,7 @@ Variable SLOTS : nat.
 Variable PERMITS : nat.
 
 (* the phases a committer goes through once its batch is in the memtable in full *)
-Definition landed (p : phase) : bool := match p with PWait | PDone true => true | _ => false end.
+Definition landed (p : phase) : bool := match p with PWait true | PDone true => true | _ => false end.
 Definition partial_of (i : nat) (t : list label) : bool :=
   existsb (fun l => match l with LApplyFail j (S _) => Nat.eqb j i | _ => false end) t.
 
@@ -90,10 +96,10 @@ Lemma entries_upd_mem : forall s free q ph next vis i,
   entries_of (upd s free q ph next vis (p_mem s)) i = entries_of s i.
 Proof. reflexivity. Qed.
 
-Lemma aap_fields : forall s i mem ph rel,
-  p_mem (applied_and_publish s i mem ph rel) = mem /\
-  p_ph (applied_and_publish s i mem ph rel) = ph_set i ph (p_ph s) /\
-  p_panic (applied_and_publish s i mem ph rel) = p_panic s.
+Lemma aap_fields : forall s i mem ph,
+  p_mem (applied_and_publish s i mem ph) = mem /\
+  p_ph (applied_and_publish s i mem ph) = ph_set i ph (p_ph s) /\
+  p_panic (applied_and_publish s i mem ph) = p_panic s.
 Proof.
   intros. unfold applied_and_publish. destruct (publish (q_mark i (p_q s)) (p_visible s)) as [q' v']. auto.
 Qed.
@@ -124,19 +130,19 @@ Proof.
     + inversion Hs; subst. unfold entries_of. cbn [p_mem p_ph]. destruct HJ as [E|[E|E]]; auto.
     + inversion Hs; subst. eapply Hkeep; eauto. rewrite Ep. reflexivity.
   - destruct (ph_get j (p_ph s)) eqn:Ep; try discriminate.
-    inversion Hs; subst. destruct (aap_fields s j (p_mem s) (PDone false) true) as [A [Bq _]].
+    inversion Hs; subst. destruct (aap_fields s j (p_mem s) (PWait false)) as [A [Bq _]].
     unfold entries_of. rewrite A, Bq. destruct HJ as [E|[E|E]]; auto.
     destruct (Nat.eq_dec i j) as [->|Hne]. { rewrite Ep in E. discriminate. }
     right; left. rewrite ph_get_set_other by auto. exact E.
   - destruct (ph_get j (p_ph s)) eqn:Ep; try discriminate. destruct (q_find j (p_q s)) as [e|]; [|discriminate].
-    inversion Hs; subst. destruct (aap_fields s j (p_mem s ++ seq_entries (e_seq e) (e_cnt e) j) PWait false) as [A [Bq _]].
+    inversion Hs; subst. destruct (aap_fields s j (p_mem s ++ seq_entries (e_seq e) (e_cnt e) j) (PWait true)) as [A [Bq _]].
     unfold entries_of. rewrite A, Bq.
     destruct (Nat.eq_dec i j) as [->|Hne]. { right; left. rewrite ph_get_set_same. reflexivity. }
     rewrite filter_app, filter_owner_other, app_nil_r by auto. rewrite ph_get_set_other by auto.
     destruct HJ as [E|[E|E]]; auto.
   - destruct (ph_get j (p_ph s)) eqn:Ep; try discriminate. destruct (q_find j (p_q s)) as [e|]; [|discriminate].
     destruct (k <? e_cnt e); [|discriminate].
-    inversion Hs; subst. destruct (aap_fields s j (p_mem s ++ seq_entries (e_seq e) k j) (PDone false) true) as [A [Bq _]].
+    inversion Hs; subst. destruct (aap_fields s j (p_mem s ++ seq_entries (e_seq e) k j) (PWait false)) as [A [Bq _]].
     unfold entries_of. rewrite A, Bq.
     destruct (Nat.eq_dec i j) as [->|Hne].
     + destruct k as [|k].
@@ -146,7 +152,8 @@ Proof.
       destruct HJ as [E|[E|E]]; auto.
   - destruct (ph_get j (p_ph s)) eqn:Ep; try discriminate. destruct (q_find j (p_q s)); [discriminate|].
     inversion Hs; subst. unfold entries_of. cbn [upd p_mem p_ph].
-    destruct (Nat.eq_dec i j) as [->|Hne]. { right; left. rewrite ph_get_set_same. reflexivity. }
+    destruct (Nat.eq_dec i j) as [->|Hne].
+    { destruct HJ as [E|[E|E]]; auto. right; left. rewrite ph_get_set_same. rewrite Ep in E. exact E. }
     rewrite ph_get_set_other by auto. destruct HJ as [E|[E|E]]; auto.
 Qed.
 
@@ -213,14 +220,29 @@ Proof.
 Qed.
 
 (* the queue holds exactly the (unapplied) entry of i *)
-Lemma aap_single : forall s i e mem ph rel,
+Lemma aap_single : forall s i e mem ph,
   p_q s = [e] -> e_id e = i ->
-  applied_and_publish s i mem ph rel =
-  upd s (if rel then S (p_free s) else p_free s) [] (ph_set i ph (p_ph s)) (p_next s)
+  applied_and_publish s i mem ph =
+  upd s (p_free s) [] (ph_set i ph (p_ph s)) (p_next s)
       (Nat.max (p_visible s) (e_seq e + e_cnt e - 1)) mem.
 Proof.
-  intros s i e mem ph rel Hq He. unfold applied_and_publish. rewrite Hq. cbn [q_mark map]. rewrite He, Nat.eqb_refl.
+  intros s i e mem ph Hq He. unfold applied_and_publish. rewrite Hq. cbn [q_mark map]. rewrite He, Nat.eqb_refl.
   cbn [publish e_applied e_seq e_cnt]. reflexivity.
+Qed.
+
+Lemma st_finish : forall s i ok, p_panic s = false -> ph_get i (p_ph s) = PWait ok -> p_q s = [] ->
+  pstep SLOTS s (LFinish i) = Some (upd s (S (p_free s)) (p_q s) (ph_set i (PDone ok) (p_ph s)) (p_next s) (p_visible s) (p_mem s)).
+Proof. intros s i ok H1 H2 H3. unfold pstep. rewrite H1, H2, H3. reflexivity. Qed.
+
+(* marking the only entry applied, publishing and finishing leaves an idle pipeline *)
+Lemma seq_tail : forall s i e mem ok P,
+  p_panic s = false -> p_q s = [e] -> e_id e = i -> p_free s = P ->
+  exists s', pstep SLOTS (applied_and_publish s i mem (PWait ok)) (LFinish i) = Some s' /\
+             idle (S P) s' = true /\ p_ph s' = ph_set i (PDone ok) (ph_set i (PWait ok) (p_ph s)).
+Proof.
+  intros s i e mem ok P Hp Hq He Hf. rewrite (aap_single s i e mem _ Hq He).
+  rewrite (st_finish _ i ok); cbn [upd p_panic p_ph p_q p_free]; auto using ph_get_set_same.
+  eexists. split. reflexivity. unfold idle. cbn [upd p_free p_q p_panic p_ph]. rewrite Hf, Hp, Nat.eqb_refl. auto.
 Qed.
 End Seq.
 
@@ -242,33 +264,30 @@ Proof.
   assert (P2 : p_panic s2 = false /\ ph_get i (p_ph s2) = PQueued /\ p_q s2 = [e] /\ p_free s2 = P).
   { unfold s2. cbn [upd p_panic p_ph p_q p_free]. rewrite ph_get_set_same, Pc. auto. }
   destruct P2 as [Qa [Qb [Qc Qd]]].
-  assert (Hother : forall j ph1 ph2 ph3, j <> i ->
-            ph_get j (ph_set i ph3 (ph_set i ph2 (ph_set i ph1 (p_ph s)))) = ph_get j (p_ph s)).
-  { intros. now rewrite !ph_get_set_other by auto. }
+  assert (Htail : forall mem ok, exists s', pstep SLOTS (applied_and_publish s2 i mem (PWait ok)) (LFinish i) = Some s' /\
+             idle (S P) s' = true /\ (forall j, j <> i -> ph_get j (p_ph s') = ph_get j (p_ph s))).
+  { intros mem ok. destruct (seq_tail SLOTS s2 i e mem ok P Qa Qc eq_refl Qd) as [s' [A [Bq Cq]]].
+    exists s'. split. exact A. split. exact Bq. intros j Hj. rewrite Cq. unfold s2, s1. cbn [upd p_ph].
+    now rewrite !ph_get_set_other by auto. }
   cbn [commit_paths In] in Hin.
   destruct Hin as [<-|[<-|[<-|[<-|[]]]]]; cbn [prun]; rewrite E1.
   - rewrite st_conflict by auto. eexists. split. reflexivity.
     unfold idle. cbn [upd p_free p_q p_panic p_ph]. rewrite Pd, Pc, Pa, Nat.eqb_refl. split. reflexivity.
     intros j Hj. unfold s1. cbn [upd p_ph]. now rewrite !ph_get_set_other by auto.
-  - rewrite E2. unfold pstep. rewrite Qa, Qb. rewrite (aap_single s2 i e _ _ _ Qc eq_refl).
-    eexists. split. reflexivity. unfold idle. cbn [upd p_free p_q p_panic p_ph]. rewrite Qd, Qa, Nat.eqb_refl.
-    split. reflexivity. intros j Hj. unfold s2, s1. cbn [upd p_ph]. now rewrite !ph_get_set_other by auto.
-  - rewrite E2. unfold pstep. rewrite Qa, Qb, Qc. cbn [q_find e_id e]. rewrite Nat.eqb_refl. cbn [e_cnt e].
+  - rewrite E2. unfold pstep at 1. rewrite Qa, Qb.
+    destruct (Htail (p_mem s2) false) as [s' [A Bq]]. rewrite A. exists s'. auto.
+  - rewrite E2. unfold pstep at 1. rewrite Qa, Qb, Qc. cbn [q_find e_id e]. rewrite Nat.eqb_refl. cbn [e_cnt e].
     destruct (k <? S c) eqn:Ek; [|apply Nat.ltb_ge in Ek; lia].
-    rewrite (aap_single s2 i e _ _ _ Qc eq_refl).
-    eexists. split. reflexivity. unfold idle. cbn [upd p_free p_q p_panic p_ph]. rewrite Qd, Qa, Nat.eqb_refl.
-    split. reflexivity. intros j Hj. unfold s2, s1. cbn [upd p_ph]. now rewrite !ph_get_set_other by auto.
+    destruct (Htail (p_mem s2 ++ seq_entries (e_seq e) k i) false) as [s' [A Bq]]. cbn [e_seq e] in *. rewrite A. exists s'. auto.
   - rewrite E2. unfold pstep at 1. rewrite Qa, Qb, Qc. cbn [q_find e_id e]. rewrite Nat.eqb_refl.
-    rewrite (aap_single s2 i e _ _ _ Qc eq_refl).
-    unfold pstep. cbn [upd p_panic p_ph p_q p_free]. rewrite Qa, ph_get_set_same. cbn [q_find].
-    eexists. split. reflexivity. unfold idle. cbn [upd p_free p_q p_panic p_ph]. rewrite Qd, Qa, Nat.eqb_refl.
-    split. reflexivity. intros j Hj. unfold s2, s1. cbn [upd p_ph]. now rewrite !ph_get_set_other by auto.
+    destruct (Htail (p_mem s2 ++ seq_entries (e_seq e) (e_cnt e) i) true) as [s' [A Bq]]. cbn [e_seq e_cnt e] in *. rewrite A. exists s'. auto.
 Qed.
 
-(* ------------------------------------------------------------------ interleavings without early release *)
-Definition holding (p : phase) : bool := match p with PPermit | PQueued | PWait => true | _ => false end.
+(* ------------------------------------------------------------------ every interleaving: permits cover the queue *)
+Definition holding (p : phase) : bool := match p with PPermit | PQueued | PWait _ => true | _ => false end.
 Definition hold_ids (l : list (nat * phase)) : list nat := map fst (filter (fun x => holding (snd x)) l).
-Definition inq (p : phase) : bool := match p with PQueued | PWait => true | _ => false end.
+Definition inq (p : phase) : bool := match p with PQueued | PWait _ => true | _ => false end.
+Definition waiting (p : phase) : bool := match p with PWait _ => true | _ => false end.
 
 Lemma hold_ids_set : forall i p l,
   length (hold_ids (ph_set i p l)) + (if holding (ph_get i l) then 1 else 0) =
@@ -334,7 +353,7 @@ Proof.
   - apply IH; auto. intros Hin. apply Hx. right. exact Hin.
 Qed.
 
-Section NoEarly.
+Section Cover.
 Variable SLOTS : nat.
 Variable PERMITS : nat.
 Hypothesis HPS : PERMITS < SLOTS.
@@ -344,7 +363,7 @@ Record KInv (s : pst) : Prop := {
   k_nodup : NoDup (map e_id (p_q s));
   k_own : forall e, In e (p_q s) ->
             (ph_get (e_id e) (p_ph s) = PQueued /\ e_applied e = false) \/
-            (ph_get (e_id e) (p_ph s) = PWait /\ e_applied e = true);
+            (waiting (ph_get (e_id e) (p_ph s)) = true /\ e_applied e = true);
   k_head : match p_q s with e :: _ => e_applied e = false | [] => True end;
   k_queued : forall j, ph_get j (p_ph s) = PQueued -> In j (map e_id (p_q s));
   k_nopanic : p_panic s = false;
@@ -366,7 +385,7 @@ Proof.
   intros s K. pose proof (k_perm s K) as Hp.
   assert (Hl : length (map e_id (p_q s)) <= length (hold_ids (p_ph s))).
   { apply NoDup_incl_length. exact (k_nodup s K). intros j Hj. apply in_map_iff in Hj. destruct Hj as [e [<- He]].
-    apply hold_ids_in. destruct (k_own s K e He) as [[E _]|[E _]]; rewrite E; reflexivity. }
+    apply hold_ids_in. destruct (k_own s K e He) as [[E _]|[E _]]; [rewrite E; reflexivity|destruct (ph_get (e_id e) (p_ph s)); try discriminate; reflexivity]. }
   rewrite map_length in Hl. lia.
 Qed.
 
@@ -374,25 +393,24 @@ Qed.
 Lemma own_other : forall s i p e,
   KInv s -> In e (p_q s) -> e_id e <> i ->
   (ph_get (e_id e) (ph_set i p (p_ph s)) = PQueued /\ e_applied e = false) \/
-  (ph_get (e_id e) (ph_set i p (p_ph s)) = PWait /\ e_applied e = true).
+  (waiting (ph_get (e_id e) (ph_set i p (p_ph s))) = true /\ e_applied e = true).
 Proof. intros s i p e K He Hne. rewrite ph_get_set_other by auto. exact (k_own s K e He). Qed.
 
 Lemma not_owner : forall s i, KInv s -> inq (ph_get i (p_ph s)) = false -> forall e, In e (p_q s) -> e_id e <> i.
 Proof.
-  intros s i K Hp e He E. subst i. destruct (k_own s K e He) as [[E _]|[E _]]; rewrite E in Hp; discriminate.
+  intros s i K Hp e He E. subst i. destruct (k_own s K e He) as [[E _]|[E _]]; [rewrite E in Hp; discriminate|destruct (ph_get (e_id e) (p_ph s)); discriminate].
 Qed.
 
-(* marking i's entry and publishing, when the queue starts with i's (unapplied) entry or i has none *)
-Lemma K_after_publish : forall s i q' v' ph free',
+(* marking i's entry and publishing: i goes on waiting (its entry may stay queued), the permit is kept *)
+Lemma K_after_publish : forall s i q' v' ok,
   KInv s ->
   publish (q_mark i (p_q s)) (p_visible s) = (q', v') ->
-  (* the new phase of i: PWait (entry may stay) or a non-queue phase with the entry gone *)
-  (ph = PWait \/ (inq ph = false /\ ~ In i (map e_id q'))) ->
   ph_get i (p_ph s) = PQueued ->
-  free' + length (hold_ids (ph_set i ph (p_ph s))) = PERMITS ->
-  forall mem, KInv (upd s free' q' (ph_set i ph (p_ph s)) (p_next s) v' mem).
+  forall mem, KInv (upd s (p_free s) q' (ph_set i (PWait ok) (p_ph s)) (p_next s) v' mem).
 Proof.
-  intros s i q' v' ph free' K Hpub Hph Hq Hperm mem.
+  intros s i q' v' ok K Hpub Hq mem.
+  assert (Hperm : p_free s + length (hold_ids (ph_set i (PWait ok) (p_ph s))) = PERMITS).
+  { pose proof (hold_ids_set i (PWait ok) (p_ph s)) as Hc. rewrite Hq in Hc. cbn in Hc. pose proof (k_perm s K). lia. }
   destruct (publish_split _ _ _ _ Hpub) as [pre [Esplit [Hpre Hhead]]].
   assert (Hids : map e_id (p_q s) = map e_id pre ++ map e_id q').
   { rewrite <- (q_mark_ids i), Esplit, map_app. reflexivity. }
@@ -407,12 +425,11 @@ Proof.
   - exact Hperm.
   - pose proof (k_nodup s K) as Hn. rewrite Hids in Hn. exact (nodup_app_r _ _ Hn).
   - intros e He. destruct (Hin' e He) as [e0 [H0 [Eid [[Ei Ea]|[Ei Ee]]]]].
-    + rewrite Ei, ph_get_set_same. destruct Hph as [->|[_ Hni]]. { right. auto. }
-      exfalso. apply Hni. rewrite <- Ei. apply in_map. exact He.
+    + rewrite Ei, ph_get_set_same. right. auto.
     + subst e0. rewrite ph_get_set_other by auto. exact (k_own s K e H0).
   - exact Hhead.
   - intros j Hj. destruct (Nat.eq_dec j i) as [->|Hne].
-    + rewrite ph_get_set_same in Hj. destruct Hph as [->|[Hi _]]; [discriminate|]. subst ph. discriminate.
+    + rewrite ph_get_set_same in Hj. discriminate.
     + rewrite ph_get_set_other in Hj by auto. pose proof (k_queued s K j Hj) as Hin.
       rewrite Hids in Hin. apply in_app_or in Hin. destruct Hin as [Hin|Hin]; [|exact Hin]. exfalso.
       (* an entry of the dequeued prefix is applied; j is PQueued, its entry is not *)
@@ -422,13 +439,13 @@ Proof.
       unfold q_mark in Hm. apply in_map_iff in Hm. destruct Hm as [e0 [E0 H0]].
       destruct (Nat.eqb (e_id e0) i) eqn:E; subst e; cbn [e_id e_applied] in *.
       * apply Nat.eqb_eq in E. congruence.
-      * destruct (k_own s K e0 H0) as [[_ A]|[A _]]; [congruence|]. rewrite Ee in A. congruence.
+      * destruct (k_own s K e0 H0) as [[_ A]|[A _]]; [congruence|]. rewrite Ee, Hj in A. discriminate.
   - exact (k_nopanic s K).
 Qed.
 
-Lemma K_step : forall s l s', KInv s -> early_release s l = false -> pstep SLOTS s l = Some s' -> KInv s'.
+Lemma K_step : forall s l s', KInv s -> pstep SLOTS s l = Some s' -> KInv s'.
 Proof.
-  intros s l s' K Hne Hs. unfold pstep in Hs. rewrite (k_nopanic s K) in Hs.
+  intros s l s' K Hs. unfold pstep in Hs. rewrite (k_nopanic s K) in Hs.
   pose proof (k_perm s K) as Hperm.
   destruct l as [i|i|i cnt|i|i|i k|i].
   - (* acquire *)
@@ -467,7 +484,7 @@ Proof.
       { apply NoDup_incl_length. constructor; [exact Hni|exact (k_nodup s K)].
         intros j [<-|Hj]. { apply hold_ids_in. rewrite Ep. reflexivity. }
         apply in_map_iff in Hj. destruct Hj as [e [<- He]]. apply hold_ids_in.
-        destruct (k_own s K e He) as [[E _]|[E _]]; rewrite E; reflexivity. }
+        destruct (k_own s K e He) as [[E _]|[E _]]; [rewrite E; reflexivity|destruct (ph_get (e_id e) (p_ph s)); try discriminate; reflexivity]. }
       cbn [length] in Hl. rewrite map_length in Hl. lia. }
     destruct (SLOTS <=? length (p_q s)) eqn:Efull. { apply Nat.leb_le in Efull. lia. }
     inversion Hs; subst. clear Hs.
@@ -482,44 +499,24 @@ Proof.
     + intros j Hj. rewrite map_app. apply in_or_app. destruct (Nat.eq_dec j i) as [->|Hn]. { right. left. reflexivity. }
       rewrite ph_get_set_other in Hj by auto. left. exact (k_queued s K j Hj).
     + exact (k_nopanic s K).
-  - (* WAL failure, not an early release: the queue starts with i's entry *)
+  - (* WAL failure: the committer goes on waiting with its failure recorded *)
     destruct (ph_get i (p_ph s)) eqn:Ep; try discriminate. inversion Hs; subst. clear Hs.
     unfold applied_and_publish. destruct (publish (q_mark i (p_q s)) (p_visible s)) as [q' v'] eqn:Hpub.
-    pose proof (hold_ids_set i (PDone false) (p_ph s)) as Hc. rewrite Ep in Hc. cbn in Hc.
-    apply (K_after_publish s i q' v' (PDone false) (S (p_free s)) K Hpub); auto; [|lia].
-    right. split. reflexivity.
-    (* head is i's entry; it is marked and dequeued; ids are distinct *)
-    pose proof (k_queued s K i Ep) as Hin. pose proof (k_head s K) as Hh. pose proof (k_nodup s K) as Hn.
-    unfold early_release in Hne. destruct (p_q s) as [|e r] eqn:Eq. { destruct Hin. }
-    rewrite Hh in Hne. cbn [negb] in Hne. rewrite andb_true_r in Hne. apply negb_false_iff in Hne. apply Nat.eqb_eq in Hne.
-    cbn [q_mark map] in Hpub. rewrite Hne, Nat.eqb_refl in Hpub. cbn [publish e_applied] in Hpub.
-    destruct (publish_split _ _ _ _ Hpub) as [pre [Es _]].
-    cbn [map] in Hn. inversion Hn as [|x l Hx Hl]. intros Hi. apply Hx. rewrite Hne.
-    fold (q_mark i r) in Es. rewrite <- (q_mark_ids i r), Es, map_app. apply in_or_app. right. exact Hi.
+    apply (K_after_publish s i q' v' false K Hpub Ep).
   - (* apply succeeds *)
     destruct (ph_get i (p_ph s)) eqn:Ep; try discriminate. destruct (q_find i (p_q s)) as [e|]; [|discriminate].
     inversion Hs; subst. clear Hs.
     unfold applied_and_publish. destruct (publish (q_mark i (p_q s)) (p_visible s)) as [q' v'] eqn:Hpub.
-    pose proof (hold_ids_set i PWait (p_ph s)) as Hc. rewrite Ep in Hc. cbn in Hc.
-    apply (K_after_publish s i q' v' PWait (p_free s) K Hpub); auto. lia.
-  - (* apply fails, not an early release *)
+    apply (K_after_publish s i q' v' true K Hpub Ep).
+  - (* apply fails: as the WAL failure, with the inserted prefix in the memtable *)
     destruct (ph_get i (p_ph s)) eqn:Ep; try discriminate. destruct (q_find i (p_q s)) as [e0|]; [|discriminate].
     destruct (k <? e_cnt e0); [|discriminate]. inversion Hs; subst. clear Hs.
     unfold applied_and_publish. destruct (publish (q_mark i (p_q s)) (p_visible s)) as [q' v'] eqn:Hpub.
-    pose proof (hold_ids_set i (PDone false) (p_ph s)) as Hc. rewrite Ep in Hc. cbn in Hc.
-    apply (K_after_publish s i q' v' (PDone false) (S (p_free s)) K Hpub); auto; [|lia].
-    right. split. reflexivity.
-    pose proof (k_queued s K i Ep) as Hin. pose proof (k_head s K) as Hh. pose proof (k_nodup s K) as Hn.
-    unfold early_release in Hne. destruct (p_q s) as [|e r] eqn:Eq. { destruct Hin. }
-    rewrite Hh in Hne. cbn [negb] in Hne. rewrite andb_true_r in Hne. apply negb_false_iff in Hne. apply Nat.eqb_eq in Hne.
-    cbn [q_mark map] in Hpub. rewrite Hne, Nat.eqb_refl in Hpub. cbn [publish e_applied] in Hpub.
-    destruct (publish_split _ _ _ _ Hpub) as [pre [Es _]].
-    cbn [map] in Hn. inversion Hn as [|x l Hx Hl]. intros Hi. apply Hx. rewrite Hne.
-    fold (q_mark i r) in Es. rewrite <- (q_mark_ids i r), Es, map_app. apply in_or_app. right. exact Hi.
+    apply (K_after_publish s i q' v' false K Hpub Ep).
   - (* finish *)
     destruct (ph_get i (p_ph s)) eqn:Ep; try discriminate. destruct (q_find i (p_q s)) eqn:Ef; [discriminate|].
     inversion Hs; subst. clear Hs. apply q_find_none in Ef.
-    pose proof (hold_ids_set i (PDone true) (p_ph s)) as Hc. rewrite Ep in Hc. cbn in Hc.
+    pose proof (hold_ids_set i (PDone ok) (p_ph s)) as Hc. rewrite Ep in Hc. cbn in Hc.
     constructor; cbn [upd p_free p_ph p_q p_panic].
     + lia.
     + exact (k_nodup s K).
@@ -530,20 +527,19 @@ Proof.
     + exact (k_nopanic s K).
 Qed.
 
-Lemma K_run : forall t s s', KInv s -> prun_ne SLOTS s t = Some s' -> KInv s'.
+Lemma K_run : forall t s s', KInv s -> prun SLOTS s t = Some s' -> KInv s'.
 Proof.
-  induction t as [|l t IH]; intros s s' K Hr; cbn [prun_ne] in Hr.
+  induction t as [|l t IH]; intros s s' K Hr; cbn [prun] in Hr.
   - inversion Hr; subst. exact K.
-  - destruct (early_release s l) eqn:Ee; [discriminate|].
-    destruct (pstep SLOTS s l) as [s1|] eqn:Es; [|discriminate].
+  - destruct (pstep SLOTS s l) as [s1|] eqn:Es; [|discriminate].
     eapply IH; [|exact Hr]. eapply K_step; eauto.
 Qed.
-End NoEarly.
+End Cover.
 
-Theorem pipeline_not_poisoned_outside_known : forall SLOTS PERMITS,
-  pipeline_not_poisoned_outside_known_stmt SLOTS PERMITS.
+(* the full statement: no overflow, and the queue plus the free permits never exceed the permits *)
+Theorem pipeline_not_poisoned : forall SLOTS PERMITS, pipeline_not_poisoned_stmt SLOTS PERMITS.
 Proof.
-  intros SLOTS PERMITS HPS t s Hr.
+  intros SLOTS PERMITS HPS t s Hr. unfold reach in Hr.
   pose proof (K_run SLOTS PERMITS HPS t (p0 PERMITS) s (K0 PERMITS) Hr) as K.
   split. { destruct K; assumption. } eapply K_bound; eauto.
 Qed.
